@@ -57,7 +57,7 @@ for m in metas:
     missed += bool(first_miss)
     led = short(note, 200) if note else ''
     out.append(f"| {m['_name']} | {short(m['change'],200)} | {short(m['needs_to_manifest'],200)} | {short(m['detected_by'],260)} | {led} |")
-out.append(f"\n{len(metas)} seeded changes in three rounds (round 2 was told the round-1 change and asked for another mechanism and another kind of trigger; round 3 was told both and given a preferred kind of trigger); "
+out.append(f"\n{len(metas)} seeded changes in four rounds (round 2 was told the round-1 change and asked for another mechanism and another kind of trigger; round 3 was told both and given a preferred kind of trigger; round 4 went to the ten properties whose checks had caught everything so far); "
            f"{missed} of them were not reported by the checks as they stood and led to a stronger check (or, twice, to a repair of the machinery itself); all are reported now.\n")
 import sys
 sys.path.insert(0, ROOT + '/lib')
